@@ -58,7 +58,7 @@ RULE = (
     "R: return-to strings lead+<=4 tokens (quick 6 leads x 12 tokens, prefix ''; thorough 16 leads x 17 tokens on "
     "prefix '' plus the quick grammar on prefix '/api'), each through flow A (3 requests) and flow B; plus 240 long "
     "return-to URLs (16 lengths 64..4096 x 15 alignments of a repeating '@evil.example:1' userinfo) through both flows; "
-    "P: request paths lead+<=4 tokens (quick 12, thorough 16 tokens; leads '/', prefix, prefix+'/') through flow A on "
+    "P: request paths lead+<=4 tokens (quick 14, thorough 18 tokens incl. the half-encoded dot segments .%2e and %2E.; leads '/', prefix, prefix+'/') through flow A on "
     "prefixes '' and '/api'; K: all single-byte mutations/truncations of the decoded session cookie, ages, state "
     "variants for 4 base sessions; L: logout and error answers. Every 3xx Location judged by the WHATWG reference. "
     "non-trivial = (implementation accepted?, reference class of the Location)"
@@ -96,7 +96,7 @@ R_LEADS_Q = ["http://", "https://", "http:", "http:\\\\", "//", ""]
 R_LEADS_T = R_LEADS_Q + ["HTTP://", "http:/", "https:\\\\", "http:/\\", "https:", "\\\\", "/", "javascript:", "\thttp://", "ht\ttp://"]
 R_TOK_Q = ["localhost", ALLOWED_HOST, "evil.example", "@", ":", "/", "\\", "?", "#", ":8443", "\t", "%5c"]
 R_TOK_T = R_TOK_Q + ["127.0.0.1", "[::1]", "\n", " ", ":443"]
-P_TOK_Q = ["/", "\\", "evil.example", "@", ":", "http:", "..", "\t", " ", "%5c", "?", "x"]
+P_TOK_Q = ["/", "\\", "evil.example", "@", ":", "http:", "..", ".%2e", "%2E.", "\t", " ", "%5c", "?", "x"]
 P_TOK_T = P_TOK_Q + ["localhost", ".", "%2e%2e", "\n"]
 MAXK = 4
 
